@@ -431,7 +431,9 @@ func c11Guards(c *Ctx, byPath map[string]*ssa.Function) {
 	hiP := p.MustMethod(pkgHistory, "HistoryTree", "ProveMembership")
 	for _, call := range callsIn(fn, func(k *ssa.CallCommon) bool { return k.StaticCallee() == hiP }) {
 		v := p.TermOf(callCommon(call).Args[2])
-		ok := v.Op == "phi" && v.Has(func(t *Term) bool { return t.IsParam(fn, 2) }) && v.Has(func(t *Term) bool { return t.Op == "binop" && t.Name == "-" && t.Args[0].IsField("version", isParam(fn, 0)) })
+		ok := v.Op == "phi" && v.Has(func(t *Term) bool { return t.IsParam(fn, 2) }) && v.Has(func(t *Term) bool {
+			return t.Op == "binop" && t.Name == "-" && t.Args[0].IsField("version", isParam(fn, 0))
+		})
 		c.Check(ok, "R3", "version-clamp", call.Pos(), "queried version clamped to the current version", "the history proof is requested for "+v.String()+": a queried version beyond the current one is not clamped and the prover walks past the last leaf")
 	}
 }
@@ -536,11 +538,15 @@ func lruDiscipline(c *Ctx, rule string) {
 	ok := false
 	for _, b := range get.Blocks {
 		cs := p.CondsAt(b)
-		hit := hasCond(cs, func(k Cond) bool { return k.Pol && k.Atom.Op == "extract" && k.Atom.Idx == 1 && k.Atom.Args[0].Op == "lookup" })
+		hit := hasCond(cs, func(k Cond) bool {
+			return k.Pol && k.Atom.Op == "extract" && k.Atom.Idx == 1 && k.Atom.Args[0].Op == "lookup"
+		})
 		if !hit || b.Idom() == nil {
 			continue
 		}
-		if hasCond(p.CondsAt(b.Idom()), func(k Cond) bool { return k.Pol && k.Atom.Op == "extract" && k.Atom.Idx == 1 && k.Atom.Args[0].Op == "lookup" }) {
+		if hasCond(p.CondsAt(b.Idom()), func(k Cond) bool {
+			return k.Pol && k.Atom.Op == "extract" && k.Atom.Idx == 1 && k.Atom.Args[0].Op == "lookup"
+		}) {
 			continue
 		}
 		isMTF := func(in ssa.Instruction) bool {
